@@ -25,7 +25,7 @@ RULE = ("2 of 3 runs: clock sweep - one bundled tariff x one of the 14 calendar-
         "distinct = (tariff, calendar type, period, start class, day-of-year bucket)")
 PROBES = ["lookups", "near_breakpoint", "season_edge_crossed", "weekday_class_midnight", "year_wrap_crossed", "leap_day",
           "world_runs", "get_prices_start0_later", "get_prices_explicit_start", "demand_charge_query", "energy_cost_checked",
-          "winter_pge", "aware_two_zone_lookup", "explicit_tariff_cost_checked", "price_vector_scribbled", "vector_longer_than_a_year", "host_tz_non_utc"]
+          "winter_pge", "aware_two_zone_lookup", "explicit_tariff_cost_checked", "price_vector_scribbled", "vector_longer_than_a_year", "host_tz_non_utc", "breakpoint_minute_sweep"]
 FAULT_DIMENSION = "none - the simulated clock is swept across the calendar (inputs, not faults)"
 REAL_VS_STUB = "real: TimeOfUseTariff + bundled JSON files, Interface.get_prices/get_demand_charge, analysis.energy_cost/demand_charge, Simulator; reference reads the JSON files itself"
 ASSUMPTIONS = ["prices compared exactly (they are copied from the file, never computed)", "costs within 1e-9 relative"]
@@ -116,10 +116,34 @@ def check(sc):
         day = dt.datetime(y, 12, 30)
     elif mode == "leap_day":
         day = dt.datetime(y, 2, 27)
+    if sc["pick"] % 40 == 7 and bps:
+        # minute sweep: for one breakpoint of the day, the price vector is started 1 .. 59 whole minutes before it with 1-minute
+        # periods; the entry whose period starts exactly on the breakpoint must already carry the new price
+        b = bps[(sc["pick"] // 40) % len(bps)]
+        at = day + dt.timedelta(seconds=int(b * 3600))
+        e_at, err_ = expect(out, doc, at, sc["tariff"])
+        out.probe("breakpoint_minute_sweep")
+        if e_at is not None:
+            for k_ in range(1, 60):
+                try:
+                    vec_ = T.get_tariffs(at - dt.timedelta(minutes=k_), k_ + 1, 1)
+                except Exception as x:
+                    from ..driver import classify_exception
+                    if classify_exception(x) == "harness":
+                        raise
+                    out.add("C17/lookup_raises", "%s: get_tariffs(%s, %d, 1): %s: %s" % (sc["tariff"], at - dt.timedelta(minutes=k_), k_ + 1, type(x).__name__, str(x)[:100]))
+                    break
+                if abs(float(vec_[k_]) - e_at[0]) > 1e-12:
+                    out.add("C17/price", "%s: get_tariffs(%s, %d, 1)[%d] is %r; that period starts at %s, where the file says %r"
+                            % (sc["tariff"], at - dt.timedelta(minutes=k_), k_ + 1, k_, float(vec_[k_]), at, e_at[0]))
+                    break
     start = day + dt.timedelta(minutes=r.randrange(0, 1440), seconds=sc["second"])
     if mode == "breakpoint" and bps:
         b = bps[sc["pick"] % len(bps)]
         start = day + dt.timedelta(seconds=int(b * 3600)) - dt.timedelta(minutes=sc["period"] * r.randint(0, 3))
+        if sc["pick"] % 3 == 0:
+            # any whole number of minutes before the breakpoint: some period of the vector starts exactly on it
+            start = day + dt.timedelta(seconds=int(b * 3600)) - dt.timedelta(minutes=sc["period"] * (sc["pick"] // 3 % 61))
     elif mode == "midnight":
         day = day - dt.timedelta(days=(day.weekday() - 4) % 7)   # a Friday
         start = day + dt.timedelta(hours=23, minutes=r.choice([0, 30, 45, 59]))
